@@ -595,7 +595,7 @@ func c17suspend(p *Prog, r *Report) {
 	found := false
 	for _, b := range cs.Blocks {
 		for _, in := range b.Instrs {
-			if v, ok := in.(ssa.Value); ok && qMany(Lit{V: v, Pos: true}) {
+			if v, ok := in.(ssa.Value); ok && (qMany(Lit{V: v, Pos: true}) || qMany(Lit{V: v, Pos: false})) {
 				found = true
 			}
 		}
